@@ -113,6 +113,21 @@ impl CertificateSigningRequestParams {
 		let alg = SignatureAlgorithm::from_oid(&alg_oid)?;
 
 		let info = &csr.certification_request_info;
+		// The signature algorithm only names a hash. The key's own algorithm is the one in the
+		// request's SubjectPublicKeyInfo (a P-384 key may sign with SHA-256): keep `alg` when
+		// it describes that key, otherwise use the algorithm that does.
+		let describes_key = |alg: &&'static SignatureAlgorithm| {
+			use x509_parser::x509::AlgorithmIdentifier;
+			let der = yasna::construct_der(|writer| alg.write_oids_sign_alg(writer));
+			matches!(AlgorithmIdentifier::from_der(&der), Ok((_, id)) if id == info.subject_pki.algorithm)
+		};
+		let alg = match describes_key(&alg) {
+			true => alg,
+			false => SignatureAlgorithm::iter()
+				.copied()
+				.find(describes_key)
+				.ok_or(Error::UnsupportedSignatureAlgorithm)?,
+		};
 		let mut params = CertificateParams {
 			distinguished_name: DistinguishedName::from_name(&info.subject)?,
 			..CertificateParams::default()
